@@ -195,9 +195,10 @@ def main():
 
     # ---- reachability twin: must be refuted (a path reaches the end of the harness) and replay natively
     twin_ok = False
+    twin_states = None
     try:
         msgs = analyse(wmod.q_twin, min(timeout, 120.0))
-        st = [m.state.name for m in msgs]
+        st = twin_states = [m.state.name for m in msgs]
         if "POST_FAIL" in st and "args" in cex:
             targs = {k: v for k, v in part.items() if not isinstance(v, (list, tuple))}
             targs.update(cex["args"])
@@ -257,6 +258,11 @@ def main():
         result["status"] = "ERROR"
     elif states == ["CONFIRMED"]:
         result["status"] = "CONFIRMED" if (twin_ok and result["confirmed_paths"] > 0) else "ERROR"
+        if result["status"] == "ERROR" and twin_states is not None and not any(
+                x in ("CONFIRMED", "POST_FAIL", "PRE_UNSAT", "EXEC_ERR", "POST_ERR", "SYNTAX_ERR", "IMPORT_ERR") for x in twin_states):
+            # the twin ran out of time before it reached the end of the harness (no verdict either way): nothing is claimed
+            result["status"] = "INCONCLUSIVE"
+            result["messages"].append({"state": "TWIN_TIMEOUT", "message": "reachability twin did not finish within its budget"})
         if result["status"] == "ERROR":
             result["messages"].append({"state": "VACUITY", "message": "reachability twin failed or no confirmed path"})
     else:
